@@ -72,6 +72,8 @@ Fixpoint kchunks {A} (B n : nat) (l : list A) : list (list A) :=
   end.
 Definition kreshape {A} (B : nat) (l : list A) : list (list A) := kchunks B (length l / B) l.
 
+Definition ksumZ (l : list Z) : Z := fold_right Z.add 0%Z l.
+Definition kmeanQ (l : list Q) : Q := (fold_right Qplus 0%Q l / inject_Z (Z.of_nat (length l)))%Q.
 Definition ksumQ (l : list Q) : Q := fold_right Qplus 0%Q l.
 Definition ksum (l : list R) : R := fold_right Rplus 0%R l.
 Definition kmean (l : list R) : R := (ksum l / INR (length l))%R.
